@@ -38,6 +38,4 @@ var pending = func() []string {
 }()
 
 // stillPending lists the planned properties whose check is not claimed yet.
-var stillPending = map[string]bool{
-
-}
+var stillPending = map[string]bool{}
